@@ -358,5 +358,5 @@ def run(repo, chk):
     _tail(repo, chk)
     chk.exhaustive = True
     chk.count('levels', 10)
-    chk.sample({'ladder': {f'ps_expr{l}': describe(funcs[f'ps_expr{l}'])['ops'] for l in (8, 7, 6, 5, 4)}})
+    chk.sample({'ladder': {f'ps_expr{l}': (describe(funcs[f'ps_expr{l}']) or {}).get('ops') for l in (8, 7, 6, 5, 4)}})
     chk.not_decided = ['the print/parse round trip (the repository has no expression printer)']
